@@ -2,9 +2,10 @@
    Model: model/MemMgr.v (jmemmgr.c + jmemnobs.c over a heap with a failure oracle),
    model/MemCfg.v (constants regenerated from the source, gen/GenMemConst.v).
    run w64 = the faithful model (size_t arithmetic mod 2^64); all op sequences, all oracles. *)
-From Coq Require Import List ZArith Permutation.
-From LJT Require Import model.MemMgr model.TjInit model.DestBuf model.MemCfg gen.GenMemConst
-  proofs.MemMgrProofs proofs.MemMgrWrap proofs.MemMgrLimits proofs.TjInitProofs proofs.DestBufProofs proofs.MemMgrExamples.
+From Coq Require Import List ZArith Bool Permutation.
+From LJT Require Import model.MemMgr model.TjInit model.DestBuf model.VirtAccess model.MemCfg gen.GenMemConst
+  proofs.MemMgrProofs proofs.MemMgrWrap proofs.MemMgrLimits proofs.TjInitProofs proofs.DestBufProofs
+  proofs.VirtAccessProofs proofs.MemMgrGeom proofs.MemMgrExamples.
 Import ListNotations.
 Local Open Scope Z_scope.
 
@@ -167,7 +168,126 @@ Theorem C14_destbuf_term_only_in_handler_refuted : exists cs,
 Proof. exact destbuf_handler_only_refuted. Qed.
 Print Assumptions C14_destbuf_term_only_in_handler_refuted.
 
+(* (8) access_virt_sarray / access_virt_barray and do_sarray_io / do_barray_io (model/VirtAccess.v, for any memory
+   system, with or without backing store).  VI a L: the window/file state [a] caches the logical array [L]. *)
+
+(* do_*_io moves exactly the defined rows of the window, one allocation chunk at a time, at matching file offsets,
+   inside both the in-memory buffer and the file *)
+Theorem C14_virt_io_transfers_exact : forall w a a' x ok,
+  1 <= a_rpc a -> 0 <= a_inmem a -> do_io w a = (a', x, ok) ->
+  ok = true /\ same_geom a a' /\ Forall (xfer_ok a) x /\
+  (if w then (forall k, a_mem a' k = a_mem a k) /\
+             (forall r, a_file a' r = if (a_cur a <=? r) && (r <? a_cur a + ndef a) then a_mem a (r - a_cur a) else a_file a r)
+   else (forall r, a_file a' r = a_file a r) /\
+        (forall k, a_mem a' k = if (0 <=? k) && (k <? ndef a) then a_file a (a_cur a + k) else a_mem a k)).
+Proof. exact do_io_spec. Qed.
+Print Assumptions C14_virt_io_transfers_exact.
+
+(* every successful access returns row pointers inside the in-memory window; a reader gets, for every row, the last value
+   written or zero (pre_zero); a writer may not skip rows and afterwards the state still caches the updated array;
+   errors are exactly JERR_BAD_VIRTUAL_ACCESS under the stated conditions and leave a consistent state *)
+Theorem C14_virt_access_window_and_contents : forall a L start num writable a' res xf,
+  VI a L -> 0 <= start -> 0 <= num -> start + num < 2 ^ 32 ->
+  access a start num writable = (a', res, xf) ->
+  Forall (fun x => xfer_ok a x \/ xfer_ok (set_win a' (a_cur a') (a_undef a) (a_dirty a')) x) xf /\
+  (a_bsopen a = false -> xf = []) /\
+  a_rows a' = a_rows a /\ a_maxacc a' = a_maxacc a /\ a_prezero a' = a_prezero a /\ a_bsopen a' = a_bsopen a /\
+  match res with
+  | inl e => e = BadVirtualAccess /\ VI a' L /\ a_undef a' = a_undef a /\
+             ((start + num >? a_rows a) || (num >? a_maxacc a) || defined_err a start (start + num) writable = true)
+  | inr off =>
+      (start + num >? a_rows a) || (num >? a_maxacc a) || defined_err a start (start + num) writable = false /\
+      off = start - a_cur a' /\ 0 <= off /\ off + num <= a_inmem a' /\ a_inmem a' = a_inmem a /\
+      if writable then
+        a_undef a' = Z.max (a_undef a) (start + num) /\
+        (forall vals, Z.of_nat (length vals) = num ->
+           VI (set_data a' (store_rows (a_mem a') off vals) (a_file a')) (Lupd L start vals))
+      else
+        VI a' L /\ a_undef a' = a_undef a /\
+        (forall k, 0 <= k < num ->
+           a_mem a' (off + k) = if start + k <? a_undef a then Some (L (start + k)) else Some 0)
+  end.
+Proof. exact access_spec. Qed.
+Print Assumptions C14_virt_access_window_and_contents.
+
+(* refinement: for every sequence of reads and writes the swapped window behaves exactly like a plain array with a
+   defined prefix (same values, same errors) *)
+Theorem C14_virt_array_refines_plain_array : forall ops a L,
+  VI a L -> Forall vop_ok ops ->
+  snd (vrun a ops) = srun (a_rows a) (a_maxacc a) (a_prezero a) L (a_undef a) ops.
+Proof. exact vrun_refines. Qed.
+Print Assumptions C14_virt_array_refines_plain_array.
+
+Theorem C14_virt_reader_never_sees_uninitialised_rows : forall a L s n a' vals,
+  VI a L -> 0 <= s -> 0 <= n -> s + n < 2 ^ 32 ->
+  vstep a (VRead s n) = (a', inr vals) -> Forall (fun c => c <> None) vals.
+Proof. exact reader_never_sees_garbage. Qed.
+Print Assumptions C14_virt_reader_never_sees_uninitialised_rows.
+
+Theorem C14_virt_no_backing_store_no_swap : forall a L start num w a' res xf,
+  VI a L -> a_bsopen a = false -> 0 <= start -> 0 <= num -> start + num < 2 ^ 32 ->
+  access a start num w = (a', res, xf) -> xf = [] /\ res <> inl VirtualBug /\ res <> inl IoFuel /\ a_cur a' = 0.
+Proof. exact no_backing_store_no_swap. Qed.
+Print Assumptions C14_virt_no_backing_store_no_swap.
+
+(* the state realize_virt_arrays builds (array fits, or window + backing store) satisfies the invariant *)
+Theorem C14_virt_realized_state_invariant : forall c unit walloc width rows maxacc pz maxmem total L,
+  0 < c_bigmh c -> 1 <= maxacc -> 1 <= rows < 2 ^ 31 -> 1 <= walloc * unit <= c_max c - c_hdr c ->
+  VI (va_realize c unit walloc width rows maxacc pz maxmem total) L.
+Proof. exact va_realize_VI. Qed.
+Print Assumptions C14_virt_realized_state_invariant.
+
+(* (9) alloc_small / alloc_large size and alignment arithmetic *)
+Theorem C14_round_up_pow2_is_the_bit_mask : forall a k, 0 <= k ->
+  Z.land (a + 2 ^ k - 1) (Z.lnot (2 ^ k - 1)) = (a + 2 ^ k - 1) / 2 ^ k * 2 ^ k.
+Proof. exact rup_is_bitmask. Qed.
+Print Assumptions C14_round_up_pow2_is_the_bit_mask.
+
+Theorem C14_source_round_up : forall a,
+  rup wid a align_simd = Z.land (a + align_simd - 1) (Z.lnot (align_simd - 1)) /\
+  rup wid a align_nosimd = Z.land (a + align_nosimd - 1) (Z.lnot (align_nosimd - 1)).
+Proof. exact source_round_up_is_mask. Qed.
+Print Assumptions C14_source_round_up.
+
+Theorem C14_round_up_range : forall a b, 1 <= b -> (rup wid a b) mod b = 0 /\ a <= rup wid a b < a + b.
+Proof. exact (fun a b H => conj (rup_multiple a b H) (rup_range a b H)). Qed.
+Print Assumptions C14_round_up_range.
+
+(* for EVERY address malloc may return: an object carved at an ALIGN_SIZE-multiple offset below the pool capacity is
+   ALIGN_SIZE-aligned and lies inside the malloc'ed block of hdr + capacity + ALIGN_SIZE - 1 bytes *)
+Theorem C14_object_placement : forall c base off sz cap,
+  1 <= c_align c -> 0 <= c_hdr c -> 0 <= base ->
+  0 <= off -> off mod c_align c = 0 -> 0 <= sz -> off + sz <= cap ->
+  let blocksize := c_hdr c + cap + c_align c - 1 in
+  (obj_addr c base off) mod c_align c = 0 /\
+  base + c_hdr c <= obj_addr c base off /\ obj_addr c base off + sz <= base + blocksize.
+Proof. exact object_placement. Qed.
+Print Assumptions C14_object_placement.
+
+(* in every run every pool has bytes_used a multiple of ALIGN_SIZE and non-negative used / left *)
+Theorem C14_pool_geometry_all_runs : forall c ops oracle,
+  cfg_wf c -> Forall op_in_range ops ->
+  match s_mgr (run w64 c ops (init_st oracle)) with
+  | Some m => Forall (fun p => p_used p mod c_align c = 0 /\ 0 <= p_used p /\ 0 <= p_left p) (pools_of m)
+  | None => True
+  end.
+Proof. exact pool_geometry_all_runs. Qed.
+Print Assumptions C14_pool_geometry_all_runs.
+
 (* ------------------------------------------------------------ non-vacuity *)
+Example C14_ex_virt_swapping :
+  (forall L, VI ex_va L) /\
+  snd (vrun ex_va ex_vops) =
+  [inr []; inr []; inr []; inr [Some 1; Some 2; Some 3; Some 4]; inl BadVirtualAccess;
+   inr [Some 21; Some 22; Some 23; Some 24; Some 0; Some 0; Some 0; Some 0]; inr [Some 0; Some 0; Some 0; Some 0]; inr [];
+   inr [Some 5; Some 6; Some 7; Some 8; Some 9; Some 10; Some 11; Some 12]; inl BadVirtualAccess] /\
+  a_cur (fst (vrun ex_va ex_vops)) = 0 /\ a_undef (fst (vrun ex_va ex_vops)) = 32.
+Proof. exact (conj ex_va_VI ex_vrun). Qed.
+
+Example C14_ex_source_overhead : pool_hdr_size + align_simd - 1 = 55 /\ pool_hdr_size + align_nosimd - 1 = 31 /\
+  max_alloc_chunk mod align_simd = 0 /\ max_alloc_chunk mod align_nosimd = 0.
+Proof. exact source_overhead. Qed.
+
 Example C14_ex_destbuf :
   let cs := [mkcall MLib 2 EFinish false; mkcall MCaller 1 EFinish false; mkcall MReuse 1 ELongjmp true;
              mkcall MLib 0 EInitFail false; mkcall MReuse 2 EThrow false; mkcall MLib 1 EFinish false; mkcall MReuse 3 EFinish false] in
